@@ -169,6 +169,35 @@ UNITS += [
          ),
 ]
 KANI = []
+MRG = "crates/core/src/commands/merge.rs"
+UNITS += [
+    Unit(name="merge_trees_tail", file=MRG, kind="block", within="pub(crate) fn merge_trees<S: IndexedTree>(",
+         anchor="let tree_merged = tree::merge_trees(be, index, trees, cmp, &save, summary)?;", block_end="@fn_end",
+         block_sig="fn merge_trees_tail(inp: &VMergeInputs, packer: &VMergePacker, indexer: &VMergeIndexer, p: ProgressB, summary: &mut SummaryR, w: &mut MergeWorld) -> (r: RusticResult<TreeId>)",
+         block_tail="",
+         functions=["commands::merge::merge_trees (tail: merge, finalize the packer, finalize the index)"],
+         rewrites=[
+             Rw("tree::merge_trees(be, index, trees, cmp, &save, summary)?;", "vmerge_tree_blobs(inp, summary, w)?;", why="blob::tree::merge_trees with the `save` closure -> stub: tree blobs handed to the packer"),
+             Rw("packer.finalize()?;", "packer.vfinalize(w)?;", why="Packer::finalize -> effectful stub: PRECONDITION 'all trees added'"),
+             Rw("indexer.write().unwrap().finalize()?;", "indexer.vfinalize(w)?;", why="RwLock guard + Indexer::finalize -> effectful stub: PRECONDITION 'packer finalized'"),
+         ],
+         contract="""
+    ensures
+        /*@merged_tree_returned_only_when_packed_and_indexed*/ r is Ok ==> final(w).trees_added@ && final(w).packer_flushed@ && final(w).index_flushed@,
+"""),
+    Unit(name="merge_snapshots_tail", file=MRG, kind="block", within="pub(crate) fn merge_snapshots<S: IndexedTree>(",
+         anchor="let trees: Vec<TreeId> = snapshots.iter().map(|sn| sn.tree).collect();", block_end="@fn_end",
+         block_sig="fn merge_snapshots_tail(repo: &VMergeRepo, snapshots: &Vec<SnapshotFile>, mut snap: MergeSnap, mut summary: SummaryR, now: ZonedR, w: &mut MergeWorld) -> (r: RusticResult<MergeSnap>)",
+         block_tail="",
+         functions=["commands::merge::merge_snapshots (tail: merge the trees, then save the merged snapshot)"],
+         rewrites=[
+             Rw("let trees: Vec<TreeId> = snapshots.iter().map(|sn| sn.tree).collect();", "let trees: Vec<TreeId> = vsnapshot_trees(snapshots);", why="iterator map/collect of the tree ids -> stub"),
+             Rw("merge_trees(repo, &trees, cmp, &mut summary)?;", "vmerge_trees_cmd(repo, &trees, &mut summary, w)?;", why="commands::merge::merge_trees -> stub carrying the postcondition proved by the unit merge_trees_tail"),
+             Rw("snap.id = repo.dbe().save_file(&snap)?.into();", "snap.id = repo.vsave_snapshot(&snap, w)?;", why="save_file of the merged snapshot -> effectful stub: PRECONDITION 'trees stored and indexed'"),
+         ],
+         contract="\n    // (implicit obligation: the merged snapshot is saved only after its trees were packed and the index was finalized)\n"),
+]
+
 META = {"not_covered": [
     "the statement's quantifier (every prefix of every command's storage operations, any single failing operation): only the ordering of the straight-line parts listed under functions is decided",
     "thread pipelines: Packer::new (chunk -> pack), Actor / FileWriterHandle composition (process then index), parallel repack in prune, TreeStreamerOnce",
